@@ -333,7 +333,37 @@ def render(rng, path, sep, deco=True):
     return s
 
 
+def gen_suffix_trap(rng):
+    """duplicate names disallowed and a node whose path string ends with the path to be added
+    (root a, a/xa/b present, a/b requested): the comparison must be on the full path"""
+    r = rng.choice(["a", "b", "ab"])
+    mid = rng.choice(["x", "y", "xx", "a"]) + r
+    leaf = rng.choice([n for n in ["b", "c", "k", "xa"] if n not in (r, mid)])
+    sep = rng.choice(SEPS)
+    dup = rng.random() < 0.2
+    deep = rng.random() < 0.4
+    trap = [r, mid, "m", leaf] if deep else [r, mid, leaf]
+    want = [r, "m", leaf] if deep and rng.random() < 0.5 else [r, leaf]
+    family = rng.choice(["new", "add"])
+    case = {"family": family, "sep": sep, "dup": dup, "tsep": "/", "tree": [], "start": 0,
+            "kinds": list(FAMILIES[family]), "stratum": f"{family}/suffixtrap/affix"}
+    if family == "new":
+        rows = [[render(rng, trap, sep), gen_attrs(rng, False, 0.3)], [render(rng, want, sep), gen_attrs(rng, False, 0.3)]]
+        if rng.random() < 0.4:
+            rows.insert(rng.randint(0, 1), [render(rng, [r, "q"], sep), []])
+    else:
+        case["tree"] = [[i + 1, n, []] for i, n in enumerate(trap)]
+        case["tsep"] = rng.choice([sep, "/"])
+        rows = [[render(rng, want, sep), gen_attrs(rng, False, 0.3)]]
+        if rng.random() < 0.4:
+            rows.append([render(rng, [r, "q"], sep), []])
+    case["rows"] = rows
+    return case
+
+
 def gen_case(rng, family=None):
+    if family is None and rng.random() < 0.04:
+        return gen_suffix_trap(rng)
     family = family or rng.choice(["new", "new", "add", "add", "add", "name"])
     pool_name = rng.choice(list(NAME_POOLS))
     pool = NAME_POOLS[pool_name]
@@ -352,11 +382,13 @@ def gen_case(rng, family=None):
         case["start"] = rng.randrange(len(nodes)) if rng.random() < 0.4 else 0
         rows = []
         cand = names + ["zq"]
-        for _ in range(rng.randint(0 if rng.random() < 0.06 else 1, 5)):
-            rows.append([rng.choice(cand), gen_attrs(rng, allow_name, 0.85)])
+        rng.shuffle(cand)
+        for nm in cand[: rng.randint(0 if rng.random() < 0.06 else 1, 5)]:
+            rows.append([nm, gen_attrs(rng, allow_name, 0.85)])
         if rows and rng.random() < 0.3:
             r = rng.choice(rows)
-            rows.append([r[0], [list(kv) for kv in r[1]] if rng.random() < 0.6 else gen_attrs(rng, False, 0.9)])
+            rows.insert(rng.randint(0, len(rows)),
+                        [r[0], [list(kv) for kv in r[1]] if rng.random() < 0.6 else gen_attrs(rng, False, 0.9)])
         case["rows"] = rows
         return case
 
@@ -365,17 +397,19 @@ def gen_case(rng, family=None):
     chosen = list(leaves) + [p for p in nodes if p not in leaves and rng.random() < 0.35]
     if rng.random() < 0.3:
         chosen = [p for p in chosen if rng.random() < 0.7] or chosen[:1]
-    for _ in range(rng.choice([0, 0, 1, 2])):
-        chosen.append(rng.choice(chosen))
     if rng.random() < 0.7:
         rng.shuffle(chosen)
     rows = []
     for p in chosen:
         rows.append([render(rng, p, sep), gen_attrs(rng, allow_name)])
-    # a repetition that carries the same attributes (frames must accept it)
-    if rows and rng.random() < 0.15:
-        r = rng.choice(rows)
-        rows.insert(rng.randint(0, len(rows)), [r[0], [list(kv) for kv in r[1]]])
+    # repetitions of a path (other spelling of the leading/trailing separator); mostly with the same
+    # attributes (frames accept those), sometimes with different ones (frames must refuse, dicts overwrite)
+    for _ in range(rng.choice([0, 0, 0, 1, 2])):
+        k = rng.randrange(len(rows))
+        attrs = [list(kv) for kv in rows[k][1]] if rng.random() < 0.65 else gen_attrs(rng, allow_name)
+        at = rng.randint(0, len(rows))
+        rows.insert(at, [render(rng, chosen[k], sep), attrs])
+        chosen.insert(at, chosen[k])
     # malformed stream
     r = rng.random()
     if r < 0.04 and len(rows) > 0:
@@ -580,4 +614,29 @@ def trusted_base(prop):
 
 
 def partial_clauses(prop):
-    return []
+    return [
+        "no single theorem `guards -> prop_C05 k i (run k i) = true`: proved are its clauses for add_path_to_tree, "
+        "add_rows (the loop of every entry point), list_to_tree, dict_to_tree, frame_to_tree (Props/C05.v); prop_C05 itself "
+        "is evaluated on every implementation output by the correspondence",
+        "attribute exactness is proved per add_path_to_tree call (C05_attrs_exact), not as the fold over all rows of a "
+        "constructor; null dropping of the DataFrame/polars variants (filter_attributes) and the duplicate-attribute check "
+        "are modelled and compared by the correspondence only",
+        "C05_no_dup_names, 'same tree as with duplicates allowed': under the guard that the tree's separator is one "
+        "character occurring in no node name and no path component (the code compares joined path strings); the "
+        "distinctness half (C05_no_dup_distinct) is unguarded",
+        "C05_leading_trailing_sep / C05_sep_independent / C05_parse_agrees: single-character separators only "
+        "(multi-character separators: known finding K3-C05, Example C05_multichar_sep_refuted)",
+        "'a well-formed input is accepted' is proved for duplicate_name_allowed=True (C05_add_path_accepts); for False only "
+        "checked through prop_C05 (accepted iff all names of the closure are distinct)",
+        "add_{dict,dataframe,polars}_to_tree_by_name (not path-based) have no theorem; they are modelled and compared",
+    ]
+
+
+def assumptions(prop):
+    return [
+        "attribute keys are not constructor parameters / properties of Node (name, parent, children, sep, parents) where "
+        "the code passes them on unfiltered (add_path_to_tree, add_dict_to_tree_by_path)",
+        "frames handed to the DataFrame/polars entry points have homogeneous attribute columns (int / str / bool with nulls)",
+        "polars add_polars_to_tree_by_name is not exercised on a frame without any attribute column (polars' rows_by_key "
+        "raises inside the library there)",
+    ]
